@@ -209,15 +209,16 @@ class World:
 
     def _reraise_control(self):
         if CONTROL:
-            pending = []
-            for t in self._tasks:
-                if not t.done():
-                    pending.append(t)
-                elif not t.cancelled():
-                    e = t.exception()
-                    if e is not None and isinstance(e, CONTROL) and self._ctrl is None:
-                        self._ctrl = e
-            self._tasks = pending
+            with NoTracing():  # concrete objects only
+                pending = []
+                for t in self._tasks:
+                    if not t.done():
+                        pending.append(t)
+                    elif not t.cancelled():
+                        e = t.exception()
+                        if e is not None and isinstance(e, CONTROL) and self._ctrl is None:
+                            self._ctrl = e
+                self._tasks = pending
         if self._ctrl is not None:
             e, self._ctrl = self._ctrl, None
             raise e
